@@ -117,6 +117,35 @@ def compare(mname, orig, repl, scope, ctxs, acc, case, shadow):
     return 'ok'
 
 
+def z3_equivalent(case, orig, repl, scope):
+    """Secondary oracle (thorough tier): z3 must not find an assignment that
+    distinguishes the two terms.  Returns 'unsat' | 'sat' | 'unknown'."""
+    import subprocess
+    if 'divisible' in model.render(orig) + model.render(repl):
+        return 'unknown'
+    lines = [model.render(c) for c in case['cmds']
+             if c and c[0] in ('declare-datatype', 'declare-datatypes', 'declare-const', 'declare-fun', 'define-fun')]
+    for n, so in scope.items():
+        if n in case['consts']:
+            return 'unknown'  # a formal that hides a global: cannot be declared twice
+        sp = gen_typed.sort_plain(so)
+        lines.append(f'(declare-const {n} {sp if isinstance(sp, str) else model.render(sp)})')
+    lines.append(f'(assert (distinct {model.render(orig)} {model.render(repl)}))')
+    lines.append('(check-sat)')
+    try:
+        p = subprocess.run(['z3', '-in', '-smt2', '-T:5'], input='\n'.join(lines).encode(), capture_output=True, timeout=30)
+    except (FileNotFoundError, subprocess.TimeoutExpired):
+        return 'unknown'
+    out = p.stdout.decode()
+    if 'error' in out:
+        return 'unknown'
+    if out.strip().startswith('unsat'):
+        return 'unsat'
+    if out.strip().startswith('sat'):
+        return 'sat'
+    return 'unknown'
+
+
 def mutators_listed(dd):
     out = []
     mods = dict(bv=dd.mutators_bv, boolean=dd.mutators_boolean, arithmetic=dd.mutators_arithmetic,
@@ -127,7 +156,7 @@ def mutators_listed(dd):
     return out
 
 
-def check_script(dd, case, acc, muts):
+def check_script(dd, case, acc, muts, z3_budget=None):
     exprs = [model.to_node(dd, c) for c in case['cmds']]
     dd.smtlib.collect_information(exprs)
     ctxs = contexts(case)
@@ -167,6 +196,13 @@ def check_script(dd, case, acc, muts):
                 r = compare(mname, orig, model.to_plain(repl), scope, ctxs, acc, case, shadow)
                 counts[mname] = counts.get(mname, 0) + 1
                 acc.count(f'{mname}:{r}')
+                if z3_budget and z3_budget[0] > 0 and r == 'ok' and not shadow:
+                    z3_budget[0] -= 1
+                    z = z3_equivalent(case, orig, model.to_plain(repl), scope)
+                    acc.count(f'z3-{z}')
+                    if z == 'sat':
+                        acc.violation(f'{mname}/value-z3', f'z3 distinguishes {model.render(orig)} and '
+                                      f'{model.render(model.to_plain(repl))}', dict(case, focus=[mname, model.render(orig)]))
                 if r == 'ok' and (free_symbols(orig, names) or free_symbols(orig, set(scope))):
                     nt = True
                     acc.nontrivial.add(runner.digest([mname, orig]))
@@ -257,13 +293,14 @@ def shard(ctx, acc):
     if ctx.shard == 0:
         check_fp_short(dd, acc)
     total = 2500 if ctx.quick else 60000
+    z3_budget = [0 if ctx.quick else 400]
 
     def body(arg):
         s, = arg
         case = case_of(s)
         try:
             with guard.cpu_limit(60.0):
-                nt, counts = check_script(dd, case, acc, muts)
+                nt, counts = check_script(dd, case, acc, muts, z3_budget)
         except guard.CpuTimeout:
             acc.skip('cpu-limit')
             return
